@@ -6,7 +6,6 @@ import (
 	"fmt"
 	"math"
 	"sort"
-	"strings"
 	"sync"
 	"unsafe"
 
@@ -1019,7 +1018,7 @@ func (r *Runtime) typedArrayProto_set(call FunctionCall) Value {
 				copy(ta.viewedArrayBuf.data[(ta.offset+targetOffset)*ta.elemSize:],
 					src.viewedArrayBuf.data[src.offset*src.elemSize:(src.offset+srcLen)*src.elemSize])
 			} else {
-				checkTypedArrayMixBigInt(src.defaultCtor, ta.defaultCtor)
+				checkTypedArrayMixBigInt(src, ta)
 				if srcLen == 0 {
 					// nothing to copy; &data[i] below would be out of range at the end of the data
 					return _undefined
@@ -1485,12 +1484,18 @@ func (r *Runtime) _newTypedArrayFromArrayBuffer(ab *arrayBufferObject, args []Va
 	return ta.val
 }
 
-func checkTypedArrayMixBigInt(src, dst *Object) {
-	srcType := src.self.getStr("name", nil).String()
-	if strings.HasPrefix(srcType, "Big") {
-		if !strings.HasPrefix(dst.self.getStr("name", nil).String(), "Big") {
-			panic(errMixBigIntType)
-		}
+func (a *typedArrayObject) isBigIntArray() bool {
+	switch a.typedArray.(type) {
+	case *bigInt64Array, *bigUint64Array:
+		return true
+	}
+	return false
+}
+
+// checkTypedArrayMixBigInt throws a TypeError if the content types (BigInt or Number) of src and dst differ.
+func checkTypedArrayMixBigInt(src, dst *typedArrayObject) {
+	if src.isBigIntArray() != dst.isBigIntArray() {
+		panic(errMixBigIntType)
 	}
 }
 
@@ -1506,7 +1511,7 @@ func (r *Runtime) _newTypedArrayFromTypedArray(src *typedArrayObject, newTarget 
 		dst.length = src.length
 		return dst.val
 	} else {
-		checkTypedArrayMixBigInt(src.defaultCtor, newTarget)
+		checkTypedArrayMixBigInt(src, dst)
 	}
 	dst.length = l
 	for i := 0; i < l; i++ {
